@@ -47,6 +47,8 @@ type epRef struct{ App, Ep string }
 type c13Case struct {
 	Dist  []string `json:"dist"`  // application of endpoint i
 	Body0 int      `json:"body0"` // body index of endpoint 0 (the worker loops over all others)
+	// Hidden: index+1 of the endpoint marked ~hidden (0 = none): its call arrow is not drawn, everything else is
+	Hidden int `json:"hidden,omitempty"`
 }
 
 var c13Dists3 = [][]string{{"A", "A", "B"}, {"A", "B", "C"}, {"A", "B", "A"}}
@@ -114,6 +116,14 @@ func (c13) Cases(tier string, emit func(string, interface{})) {
 			emit("n3", c13Case{Dist: d, Body0: b})
 		}
 	}
+	// one endpoint hidden (first distribution, every third body of endpoint 0)
+	for b := range c13Bodies(c13Dists3[0], false) {
+		if b%3 == 1 {
+			for h := 1; h <= 3; h++ {
+				emit("n3h", c13Case{Dist: c13Dists3[0], Body0: b, Hidden: h})
+			}
+		}
+	}
 	if tier == "thorough" {
 		for _, d := range c13Dists4 {
 			for b := range c13Bodies(d, true) {
@@ -130,7 +140,8 @@ func c13ParseEndpoint(app, ep, body string) (*sysl.Endpoint, error) {
 	if err != nil {
 		return nil, fmt.Errorf("%v\n%s", err, src)
 	}
-	return m.Apps[app].Endpoints[ep], nil
+	name := strings.TrimSuffix(ep, " [~hidden]")
+	return m.Apps[app].Endpoints[name], nil
 }
 
 func indentLines(s string, n int) string {
@@ -250,7 +261,13 @@ func refWalkCalls(m *sysl.Module, start epRef, bb map[string]bool) []arrow {
 	var walkStmts func(app string, ss []*sysl.Statement)
 	var visit func(from string, t epRef)
 	visit = func(from string, t epRef) {
-		out = append(out, arrow{from, t.App, t.Ep})
+		hidden := false
+		for _, e := range m.Apps[t.App].Endpoints[t.Ep].GetAttrs()["patterns"].GetA().GetElt() {
+			hidden = hidden || e.GetS() == "hidden"
+		}
+		if !hidden {
+			out = append(out, arrow{from, t.App, t.Ep}) // the call to a hidden endpoint is not drawn; its body is still walked
+		}
 		key := t.App + " <- " + t.Ep
 		if bb[key] || inProgress[key] > 0 {
 			return
@@ -313,7 +330,11 @@ func (c13) Run(c core.Case) core.Outcome {
 	eps := make([][]*sysl.Endpoint, n)
 	for i := 0; i < n; i++ {
 		for _, b := range bodies {
-			e, err := c13ParseEndpoint(cs.Dist[i], c13EpName(i), b)
+			epDecl := c13EpName(i)
+			if cs.Hidden == i+1 {
+				epDecl += " [~hidden]"
+			}
+			e, err := c13ParseEndpoint(cs.Dist[i], epDecl, b)
 			if err != nil {
 				o.Gap = "body does not compile: " + err.Error()
 				return o
@@ -341,6 +362,9 @@ func (c13) Run(c core.Case) core.Outcome {
 			app.Endpoints[c13EpName(i)] = eps[i][idx[i]]
 		}
 		for s := 0; s < n; s++ {
+			if cs.Hidden == s+1 {
+				continue // a hidden start endpoint has no entry arrow: outside the reference walk
+			}
 			start := epRef{cs.Dist[s], c13EpName(s)}
 			type opt struct {
 				name  string
@@ -503,7 +527,7 @@ func (c13) Run(c core.Case) core.Outcome {
 	o.Traces = diagrams
 	o.Extra = map[string]int{"diagrams": diagrams, "diagrams_with_2+_arrows": nontriv}
 	if nontriv > 0 {
-		o.NonTrivial = fmt.Sprintf("%v/%d", cs.Dist, cs.Body0)
+		o.NonTrivial = fmt.Sprintf("%v/%d/h%d", cs.Dist, cs.Body0, cs.Hidden)
 	}
 	return o
 }
